@@ -268,6 +268,14 @@ func walkCodec(p *Program, l *LayoutEngine, dir string) (*CodecFacts, error) {
 		"(reflect.Value).NumField(" + sName + ")":                           {{1, 1}},
 		"invoke:reflect.Type.NumField((reflect.Value).Type(" + sName + "))": {{1, 1}},
 	}
+	// exactly one field is walked: a struct reached through that field (an embedded struct taken up by an
+	// iterative walk instead of a recursive call) has no fields of its own in this walk
+	w.AssumeFn = func(key string) (IntervalSet, bool) {
+		if strings.HasPrefix(key, "(reflect.Value).NumField(") || strings.HasPrefix(key, "invoke:reflect.Type.NumField(") {
+			return IntervalSet{{0, 0}}, true
+		}
+		return nil, false
+	}
 	if dir == "unmarshal" {
 		w.Assume["len("+cf.Buf+")"] = IntervalSet{{64, 64}}
 		w.Assume[cf.Buf+"[0]"] = IntervalSet{{0x17, 0x17}}
@@ -294,9 +302,21 @@ func walkCodec(p *Program, l *LayoutEngine, dir string) (*CodecFacts, error) {
 			if !v {
 				continue
 			}
-			if strings.HasPrefix(k, "eq(codec.") {
+			if strings.HasPrefix(k, "eq(codec.") || strings.HasPrefix(k, "eq(rtype(") {
 				g := strings.TrimPrefix(k, "eq(")
-				g = g[:strings.Index(g, ",")]
+				if strings.HasPrefix(g, "rtype(") {
+					// a table keyed by type descriptors: the kind of the described type
+					if e := strings.Index(g, "),"); e >= 0 {
+						g = g[:e+1]
+						if t, ok := w.RTypes[g]; ok {
+							if kn, _ := l.KindOf(t); kn != "" {
+								cf.TypeVars[g] = kn
+							}
+						}
+					}
+				} else {
+					g = g[:strings.Index(g, ",")]
+				}
 				if kind, ok := cf.TypeVars[g]; ok {
 					// inner switch kinds win over the outer SOM/MsgType switch (which they follow)
 					if cp.Kind == "other" || cp.Kind == "untagged" || (kind != "som" && kind != "msgtype") {
@@ -334,9 +354,15 @@ func walkCodec(p *Program, l *LayoutEngine, dir string) (*CodecFacts, error) {
 					} else {
 						cp.ValTag = 1
 					}
-				} else if v && cp.Kind == "other" {
+				} else if v && (cp.Kind == "other" || (cp.Kind != "som" && cp.Kind != "msgtype" && cp.Kind != "embedded")) {
+					// no offset: clause: the field is skipped, whatever its type was found to be beforehand
 					cp.Kind = "untagged"
 				}
+			}
+		}
+		for k, v := range pa.State.Bools {
+			if !v && strings.HasPrefix(k, "(reflect.Value).CanSet(") && cp.Kind != "embedded" {
+				cp.Kind = "unsettable" // skipped before its type matters
 			}
 		}
 		if len(pa.Results) > 0 {
